@@ -21,7 +21,7 @@ func init() {
 			"R2": "provenance of the chosen action: only elements of the allowed-action list",
 			"R3": "exactly one action (or hand-off) per path; none only when nothing is allowed; no known-nil error returned",
 			"R4": "bet/raise amount clamp shape and positivity of the random draw; pay amounts",
-			"R5": "own id: Actions → adapter → engine forwarding, same name, arguments in order",
+			"R5": "own id: Actions → adapter → engine forwarding, same name, arguments in order; the adapter is the actor's current one, looked up for every move",
 			"R6": "silence guards before the move request; a view with the same time stamp counts as stale; the time of every non-stale view is remembered before acting",
 			"R7": "timer discipline: the runner's time bank is created once, by the constructor; a view discarded by the staleness filter performs no time-bank operation (the pending move survives a re-published, unchanged hand state)",
 		},
@@ -258,7 +258,7 @@ func checkC18(c *Ctx) {
 	}
 
 	// ---------------- R5 forwarding
-	checkActionForwarding(c)
+	checkActionForwarding(c, "R5")
 
 	// ---------------- R7 timer discipline (shared with C19.R5)
 	checkRunnerTimer(c, "R7", bot, entry)
@@ -468,12 +468,12 @@ func mapKeysFromParam(p *Prog, f *ssa.Function, pi int) string {
 }
 
 // checkActionForwarding (C18.R5): Actions.X → Adapter.X(id, args…) → TableEngine.PlayerX(id, args…)
-func checkActionForwarding(c *Ctx) {
+func checkActionForwarding(c *Ctx, rule string) {
 	p := c.P
 	ai := p.Iface("/actor", "Actions")
 	adI := p.Iface("/actor", "Adapter")
 	if ai == nil || adI == nil {
-		c.Bad("R5", "anchors", "-", "Actions / Adapter interfaces not found")
+		c.Bad(rule, "anchors", "-", "Actions / Adapter interfaces not found")
 		return
 	}
 	n := 0
@@ -515,9 +515,14 @@ func checkActionForwarding(c *Ctx) {
 						good = false
 					}
 				}
+				// … on the adapter the actor is wired to NOW (looked up per move), not one remembered earlier
+				if recv := p.Sym(cm.Value).Strip(); good && !recv.IsCall("Actor.GetTable") {
+					good = false
+					d = "forwards to an adapter obtained as " + recv.String() + ", not to the actor's current adapter (GetTable() at the time of the move): after the actor is wired to another table the moves still go to the old one"
+				}
 				ok = good
 			}
-			c.Check(ok, "R5", "actions:"+name, p.Pos(f.Pos()), "→ Adapter."+name+"(own id, args)", "Actions."+name+" "+d)
+			c.Check(ok, rule, "actions:"+name, p.Pos(f.Pos()), "→ Adapter."+name+"(own id, args)", "Actions."+name+" "+d)
 		}
 	}
 	for _, t := range p.Implementers(adI) {
@@ -547,10 +552,10 @@ func checkActionForwarding(c *Ctx) {
 				}
 				ok = good
 			}
-			c.Check(ok, "R5", "adapter:"+name, p.Pos(f.Pos()), "→ TableEngine.Player"+name+"(id, args)", "the engine adapter's "+name+" "+d)
+			c.Check(ok, rule, "adapter:"+name, p.Pos(f.Pos()), "→ TableEngine.Player"+name+"(id, args)", "the engine adapter's "+name+" "+d)
 		}
 	}
-	c.Min("R5", "forwarders (Actions and engine adapter)", n, 18)
+	c.Min(rule, "forwarders (Actions and engine adapter)", n, 18)
 }
 
 func blockReaches(from, to *ssa.BasicBlock) bool {
